@@ -48,6 +48,9 @@ pub const CONTEXTS: &[(&str, &str)] = &[
 
 /// payload fragments over the names pv, pw, pf, pg, pe, pi
 pub const PAYLOADS: &[&str] = &[
+    "pn := 0\nfn pnext() {\npn += 1\nreturn $\"${\"abcdef\"[pn]}\"\n}\nprint($\"${pnext()}-${pnext()}\")\nprint($\"${pnext()}${pnext()}${pnext()}\")\nprint(pn)\n",
+    "pa := {\"id\": \"A\", \"f\": fn () {\nreturn this.id\n}}\npb := {\"id\": \"B\", \"f\": pa.f}\nprint([pb.f(), pb[\"f\"](), pa[\"f\"]()])\npk := \"f\"\nprint(pb[pk]())\n",
+    "pv := [10, 4]\npo := {\"k\": 9, \"s\": \"a\"}\npv[0] -= 3\npo.k /= 2\npo[\"k\"] %= 3\npo.s += \"b\"\npv[1] -= pv[0]\nprint([pv, po])\n",
     "pv := [3, 4]\npo := {\"a\": 5}\nfn pf() {\nreturn 6\n}\nprint(pv[1] - 1)\nprint(po.a - 1)\nprint(pf() - 1)\nprint((2) - 1)\nprint(\"ab\"->len() - 1)\nprint(pv[0] - 2 - pv[1])\nprint([pv[1] - 1, po[\"a\"] - 2])\n",
     "pv := [3, 4]\nprint(pv[0] + 1 == 4)\nprint(pv[1] * 2 != -8)\nprint(pv[0] < -1 || pv[1] >= 10)\nprint(-pv[0] == -3)\nprint(pv[0] % 2 == 1 && !false)\n",
     "print(1 + 2 * 3)\n",
@@ -358,6 +361,9 @@ impl Check for C01 {
         let mut eo = super::evalorder::cases(4);
         for p in super::evalorder::SELF_READ_PROGRAMS {
             eo.push(Case::new(p.to_string(), 4, "an index, key or bound that reads the container it is applied to".to_string()));
+        }
+        for p in super::evalorder::BOUND_ROUTE_PROGRAMS.iter().chain(super::evalorder::THIS_PROGRAMS.iter()).chain(super::evalorder::SCOPING_PROGRAMS.iter()) {
+            eo.push(Case::new(p.to_string(), 4, "functions read from objects, and names, through every route".to_string()));
         }
         ctx.judge(eo, |c, r, o| self.oracle(c, r, o))?;
         // (3b) every payload and every repository script written without the separators its tokens
